@@ -96,11 +96,15 @@ def _job(args):
                     namings[4] = [forced[i] if i in forced else rest_names[rest_ids.index(i)] for i in range(9)]
                 O = [x for x in O if x not in S] or O
                 sk = "named"
+            warm = rng.random() < 0.4 and len(S[0]) >= 1
             for names in namings:
                 nodes = [render(x, names) for x in anodes]
                 edges = [(render(a, names), render(b, names)) for a, b in aedges]
                 back = {render(x, names): x for x in anodes}
                 specs = rules.all_shapes((sk, [render(x, names) for x in S]), (ok, [render(x, names) for x in O]))
+                if warm:
+                    # the same architecture object is first asked about the PARENT of the first subject (same objects)
+                    specs = rules.all_shapes(("named", [render(S[0][:-1], names)]), (ok, [render(x, names) for x in O]), with_aliases=False)[:6] + specs
                 rec, w, m = rules.eval_cases([dict(nodes=nodes, edges=edges, specs=specs)])[0]
                 outs = []
                 for spec, (io, mo) in zip(specs, rec):
